@@ -120,13 +120,13 @@ theorem groupsFromRight_flatten (ds : List Char) : (groupsFromRight ds).flatten 
 
 /-! ### the whole format -/
 
-/-- `format_number` is: '-' for negative values, the grouped integer digits, and the decimal
+/-- `format_number` is: '-' for negative values that show a non-zero digit, the grouped integer digits, and the decimal
     separator with the fraction digits unless there are none or removal is enabled and all
     printed fraction digits are zero. -/
 theorem format_shape {F : Type} [Num F] (x : F) (thou dec : String) (digits : Nat) (removeZero rounding : Bool) :
     let s := (if rounding then Num.fixed (Num.abs x) digits else Num.short (Num.abs x)).toList
     formatNumber x thou dec digits removeZero rounding =
-      String.ofList ((if Num.lt x (Num.ofInt 0) then ['-'] else []) ++
+      String.ofList ((if Num.lt x (Num.ofInt 0) && s.any (fun c => c != '0' && c != '.') then ['-'] else []) ++
         groupThousands thou.toList (splitDot s).1 ++
         (if (splitDot s).2.isEmpty || (removeZero && allZero (splitDot s).2) then [] else dec.toList ++ (splitDot s).2)) := by
   intro s
@@ -145,7 +145,8 @@ theorem splitDot_join (ip fp : List Char) (h : '.' ∉ ip) : splitDot (ip ++ '.'
 /-! non-vacuity: the classic boundary cases, over exact rationals -/
 example : formatNumber (199 / 200 : Rat) "." "," 2 true true = "1" := by decide +kernel       -- 0.995 -> 1,00 -> "1"
 example : formatNumber (1234567 / 100 : Rat) "." "," 2 true true = "12.345,67" := by decide +kernel
-example : formatNumber (-1 / 2 : Rat) "." "," 0 false true = "-0" := by decide +kernel        -- tie to even
+example : formatNumber (-1 / 2 : Rat) "." "," 0 false true = "0" := by decide +kernel         -- tie to even; no sign on zero digits
+example : formatNumber (-3 / 2 : Rat) "." "," 0 false true = "-2" := by decide +kernel
 example : formatNumber (5 / 2 : Rat) "." "," 0 false true = "2" := by decide +kernel
 
 end SCP.C07
